@@ -483,10 +483,20 @@ def _annotate_ast_startpos(
             decorator_col = _char_col_offset(text, decorator)
             # The col_offset doesn't include the @, which may be followed by
             # whitespace.
-            at_col = text.lines[decorator.lineno - 1].rfind("@", 0, decorator_col)
+            at_lineno = decorator.lineno
+            at_col = text.lines[at_lineno - 1].rfind("@", 0, decorator_col)
+            while at_col < 0 and at_lineno > 1:
+                # A parenthesized decorator expression can start on a later
+                # line than its "@", e.g. "@(\n  deco\n)".  The "@" is the
+                # first token of its line.
+                at_lineno -= 1
+                line = text.lines[at_lineno - 1]
+                if line.lstrip().startswith("@"):
+                    at_col = line.index("@")
             if at_col < 0:
+                at_lineno = decorator.lineno
                 at_col = decorator_col - 1
-            delta = (decorator.lineno - 1, at_col)
+            delta = (at_lineno - 1, at_col)
         else:
             delta = (aast_node.lineno - 1, _char_col_offset(text, aast_node))
 
